@@ -301,7 +301,7 @@ def replay(pid, path):
     if eng == "kcompose":
         from .main import Result
         res = Result()
-        engine_kcompose.run(pid, "quick", data.get("seed", 0), res, only=[dict(variant="setup", case=rp["case"])] if rp.get("variant") == "setup" else [dict(prog=rp["prog"], ins=rp["ins"], outs=rp["outs"], **({"pins": rp["pins"]} if "pins" in rp else {}))])
+        engine_kcompose.run(pid, "quick", data.get("seed", 0), res, only=[dict(variant="setup", case=rp["case"])] if rp.get("variant") == "setup" else [dict(prog=rp["prog"], ins=rp["ins"], outs=rp["outs"], **({"pins": rp["pins"]} if "pins" in rp else {}), **({"ellipsis": rp["ellipsis"]} if "ellipsis" in rp else {}))])
         bad = [h for h in res.hits if h["prop"] == pid]
         if bad:
             print("VIOLATION property=%s replay=%s" % (pid, path))
